@@ -1,0 +1,7 @@
+//go:build !verif
+
+package parse
+
+func verifLexStep()       {}
+func verifParseStep()     {}
+func verifLexRun(d int64) {}
